@@ -34,10 +34,13 @@ PROPS = {
         'not_decided': 'that each lowering is the right cone',
     },
     'C07': {
-        'rules': ['R15'],
+        'rules': ['R15', 'R33'],
         'decided': 'integrality vector aligned with columns under every call history; '
-                   'formulation-time variables are continuous',
-        'not_decided': 'cone towers, quadratic encodings, brute-force agreement (numeric)',
+                   'formulation-time variables are continuous; weight bookkeeping of the power-cone '
+                   'tower (padding to a power of two exactly once, children of split() sum to half the '
+                   'degree -- symbolic linear identities)',
+        'not_decided': 'exactness of rsocone and of the quadratic encodings, termination of the '
+                       'recursion, brute-force agreement (numeric)',
     },
     'C08': {
         'rules': ['R14', 'R07'],
